@@ -25,6 +25,10 @@ VERIF = os.path.dirname(os.path.dirname(os.path.abspath(__file__)))
 PY = sys.executable
 
 
+import re
+_ADDR = re.compile(r' at 0x[0-9a-fA-F]+')
+
+
 class HarnessError(Exception):
     pass
 
@@ -46,7 +50,9 @@ def digest_of(obj):
 
 def san(v, depth=0):
     """Sanitise a value for logs: plain data stays, everything else becomes a type tag (no addresses)."""
-    if v is None or isinstance(v, (bool, int, str)):
+    if isinstance(v, str):
+        return _ADDR.sub('', v) if '0x' in v else v
+    if v is None or isinstance(v, (bool, int)):
         return v
     if isinstance(v, float):
         return v
@@ -326,11 +332,43 @@ def write_replay(mod, case, viol, original, shrink_runs):
     return path
 
 
+def case_digest(pid, path):
+    mod = load_prop(pid)
+    doc = json.load(open(path))
+    case = doc['case'] if 'case' in doc else doc
+    res = safe_run(mod, case)
+    print(json.dumps([res['digest'], sorted(set(v[0] for v in res['viol']))]))
+    return 0
+
+
+def reproducibility_violations(mod, path, case, res):
+    """Clause 1 of C03 on one explicit case: same program, same and other interpreters, other hash seeds."""
+    mine = [res['digest'], sorted(set(v[0] for v in res['viol']))]
+    r2 = safe_run(mod, case)
+    if [r2['digest'], sorted(set(v[0] for v in r2['viol']))] != mine:
+        return [('%s.1' % mod.ID, 'the same case executed twice in one interpreter gives different traces/verdicts')]
+    for hs in ('1', '77', '4242'):
+        env = dict(os.environ)
+        env['PYTHONHASHSEED'] = hs
+        p = subprocess.run([os.path.join(VERIF, 'check'), mod.ID, '--case-digest', path], capture_output=True,
+                           text=True, env=env, timeout=300, cwd=VERIF)
+        try:
+            other = json.loads(p.stdout.strip().splitlines()[-1])
+        except Exception:
+            return [('%s.1' % mod.ID, 'fresh interpreter failed on the case: %s' % p.stderr[-300:])]
+        if other != mine:
+            return [('%s.1' % mod.ID, 'trace/verdict of the same case differs in a fresh interpreter '
+                     '(PYTHONHASHSEED=%s): %r vs %r' % (hs, other, mine))]
+    return []
+
+
 def replay(pid, path):
     mod = load_prop(pid)
     doc = json.load(open(path))
     case = doc['case'] if 'case' in doc else doc
     res = safe_run(mod, case)
+    if not res['viol'] and getattr(mod, 'NONDETERMINISM_IS_VIOLATION', False):
+        res['viol'] = list(res['viol']) + reproducibility_violations(mod, path, case, res)
     if res['viol']:
         for cl, msg in res['viol'][:10]:
             print('  violated %s: %s' % (cl, msg))
@@ -518,6 +556,13 @@ def run_check(pid, tier, base_seed, runs=None, budget=None, jobs=None):
         # the replay file must reproduce the violation in a fresh process
         p = subprocess.run([os.path.join(VERIF, "check"), pid, '--replay', path],
                            capture_output=True, text=True, timeout=300, cwd=VERIF)
+        if (p.returncode != 1 or ('violated %s:' % cl) not in p.stdout) and \
+                getattr(mod, 'NONDETERMINISM_IS_VIOLATION', False):
+            # for the reproducibility property a verdict that does not recur in a fresh process IS the violation
+            reported.append(('%s.1' % pid, 'a violation of %s seen in the batch (index %d) does not recur when the '
+                             'same explicit case is executed in a fresh interpreter: execution is not reproducible'
+                             % (cl, i), path))
+            continue
         if p.returncode != 1 or ('violated %s:' % cl) not in p.stdout:
             harness_errors.append('violation of %s at index %d does not replay from %s (exit %d)'
                                   % (cl, i, path, p.returncode))
@@ -599,12 +644,15 @@ def main(argv):
     ap.add_argument('--budget', type=float)
     ap.add_argument('--jobs', type=int)
     ap.add_argument('--digests')
+    ap.add_argument('--case-digest')
     ap.add_argument('--show', type=int, help='print generated case and verdict for one index')
     a = ap.parse_args(argv)
     pid = a.property.upper()
     try:
         if a.replay:
             return replay(pid, a.replay)
+        if a.case_digest:
+            return case_digest(pid, a.case_digest)
         if a.digests:
             mod = load_prop(pid)
             s, e = a.digests.split(':')
